@@ -668,7 +668,14 @@ def correspond(ctx):
     # combinations of the grid), before the worker pool of the machine jobs is started
     dis += c09adapt.differential(ctx)
     ctx.jobs = jobs(ctx.tier)
-    d2, bad = run_jobs(ctx, ctx.jobs)
+    try:
+        d2, bad = run_jobs(ctx, ctx.jobs)
+    except Exception as ex:
+        # an instance of the grid can no longer be built / driven on this tree: a disagreement by itself; what the
+        # corpus and the selection-glue / constant differential found is kept (it usually names the cause)
+        d = Disagreement(None, [], 0, None, None, kind="correspondence-exception: the machine jobs raised %r" % (ex,))
+        d.inst_name = "jobs"
+        return dis + [d]
     # mode A has to reach the complete reachable product on the unchanged tree; an exploration that runs into the
     # state bound (state explosion of a changed implementation) is a disagreement, not a silent loss of coverage
     for i in ctx.cov.instances:
@@ -708,7 +715,7 @@ def search(ctx, disagreements, proof_info):
     for d in disagreements:
         if getattr(d, "kind", "").startswith("monitor:"):
             return {"instance": d.inst_name, "trace": [list(l) for l in d.trace], "monitor": d.kind[8:],
-                    "letter_format": FMT, "combo": getattr(d, "combo", None)}
+                    "letter_format": FMT, "combo": getattr(d, "combo", None), "axsize": getattr(d, "axsize", None)}
     # a difference in the selection glue: drive the chain the real glue built for that combination, monitors armed
     for d in disagreements:
         args = adapter_args(d.combo) if getattr(d, "combo", None) else None
@@ -896,6 +903,14 @@ def replay(ctx, payload):
     fi = payload.get("failing_input") or {}
     name = fi.get("instance")
     trace = [tuple(l) for l in fi.get("trace", [])]
+    if fi.get("axsize") and not trace:
+        msg, _ = c09adapt.axsize_check(*fi["axsize"])
+        if msg:
+            print(msg)
+            print("VIOLATION property=%s replay=(replayed)" % ctx.prop)
+            return 1
+        print("the configuration no longer violates the property on the current tree")
+        return 0
     if fi.get("combo") and not trace:
         import logging
         logging.disable(logging.CRITICAL)
